@@ -358,10 +358,11 @@ fn private_commits(st: &LeafStack, n: usize, plan: &[(usize, usize)], sanity_his
 }
 
 /// the two count checks: an empty batch and an oversized batch are rejected (each consumes a prover)
-fn private_rejections(st: &LeafStack) {
+fn private_rejections(st: &LeafStack, thorough: bool) {
     let out = &mut LineOut::new();
     let cfg = wormhole_private_batch_circuit_config();
-    for (n, k) in [(1usize, 0usize), (1, 2), (2, 0), (2, 3)] {
+    let all = [(1usize, 0usize), (1, 2), (2, 0), (2, 3)];
+    for &(n, k) in if thorough { &all[..] } else { &all[..2] } {
         let prover = PrivateBatchProver::new(cfg.clone(), st.leaf.common.clone(), &st.leaf.verifier_only, n, st.dummy.clone())
             .expect("private batch prover");
         let supplied: Vec<Proof> = st.reals[..k].to_vec();
@@ -471,10 +472,11 @@ fn main() {
         // one circuit build per batch size; the sizes run side by side
         std::thread::scope(|sc| {
             if want("public") {
-                sc.spawn(move || public_commits(st, 3));
+                // quick: 2 slots (pad-after and order both observable); thorough: 3
+                sc.spawn(move || public_commits(st, if thorough { 3 } else { 2 }));
             }
             if want("private") {
-                sc.spawn(move || private_rejections(st));
+                sc.spawn(move || private_rejections(st, thorough));
                 sc.spawn(move || private_commits(st, 1, &[(1, 20 * s)], false));
                 sc.spawn(move || private_commits(st, 2, &[(1, 100 * s), (2, 200 * s)], true));
                 sc.spawn(move || private_commits(st, 3, &[(1, 100 * s), (2, 100 * s), (3, 600 * s)], true));
